@@ -22,6 +22,11 @@ package main
 //	                                  obitag_ref_index of the cluster heads and reffamidx_in of the families by the real
 //	                                  IndexSequence), the query pushed through the returned iterator: exact-match table and
 //	                                  two-stage obitag2.Identify                      -> "taxid bestmatch weight exact|lcs"
+//	fv1|fv2, iv, dv1|dv2, iv3         the same real calls as fc1|fc2, ix, id1|id2, id3; the MODEL runs its verbatim
+//	                                  transcriptions of the kernels (FastLCSEGFScoreByte on the shared scratch buffer,
+//	                                  D1Or0, byte comparison; Model/TagV.lean, Model/TagTV.lean: findClosestsV,
+//	                                  indexSequenceV, identifyTextV, identify2V) and is handed NOTHING measured on the
+//	                                  real kernels: only the candidate orders of the real unstable sort
 //	qg  <A> <maxlen>                  every B over {a,c,g,t} of length <= maxlen against A   -> "count minslack sumslack"
 //	qgn <A> <k>                       every B obtained from A by k (1 or 2) single-base edits -> "count minslack sumslack"
 //	                                  slack = common4mers + 3 + 4*distance - max(|A|,|B|)  (the q-gram bound says >= 0)
@@ -37,7 +42,10 @@ package main
 // Oracles (real code against brute force): the answer of FindClosests = the set of ALL references at minimal
 // unbounded LCS distance and that distance; every entry d -> taxon of the index = LCA (naive ancestor sets on the
 // parent table) of the taxa of all references within distance d; the assigned taxon is an ancestor-or-self of
-// the taxon of every brute-force best reference. Hypotheses of the Lean theorems validated on every pair met:
+// the taxon of every brute-force best reference; bestId = the largest identity lcs/alilength among the brute-force
+// best references and bestmatch = the FIRST of them, in the scan order of the code, reaching it (acgt inputs: theorem
+// bestmatch_verbatim); two calls on the same input give the same answer (sort.Sort is unstable but has no random
+// state: the candidate order is a function of the counts). Hypotheses of the Lean theorems validated on every pair met:
 // the q-gram bound (hyp.qgram) and exactness of the bounded kernels (hyp.bounded-lcs, hyp.d1or0).
 
 import (
@@ -572,7 +580,7 @@ func (c15) Exec(c string) (string, []Fail) {
 	x := &c15Ctx{}
 	op := w[0]
 	// the verbatim-kernel operations run the same real code; the model side differs (Model/TagV.lean)
-	if v, ok := map[string]string{"fv1": "fc1", "fv2": "fc2", "iv": "ix", "dv1": "id1", "dv2": "id2"}[op]; ok {
+	if v, ok := map[string]string{"fv1": "fc1", "fv2": "fc2", "iv": "ix", "dv1": "id1", "dv2": "id2", "iv3": "id3"}[op]; ok {
 		x.verb = true
 		stat("op:" + op)
 		op = v
@@ -767,6 +775,8 @@ func c15ExecFC(x *c15Ctx, op, base string, q []byte, refs [][]byte) (string, []F
 	qs := c15Seq("q", q)
 	var gotMaxe int
 	var gotIdx []int
+	var gotBestId float64
+	var gotBM string
 	res := guardT(20*time.Second, func() string {
 		var bests obiseq.BioSequenceSlice
 		var maxe int
@@ -787,8 +797,23 @@ func c15ExecFC(x *c15Ctx, op, base string, q []byte, refs [][]byte) (string, []F
 				}
 			}
 		}
-		gotMaxe, gotIdx = maxe, append([]int{}, idxs...)
-		return fmt.Sprintf("%d %s %s %s", maxe, c15Frac(bestId, 2*c15MaxLen(q, refs)+2), c15IdxOf(bestmatch), c15Ints(idxs))
+		gotMaxe, gotIdx, gotBestId, gotBM = maxe, append([]int{}, idxs...), bestId, c15IdxOf(bestmatch)
+		r1 := fmt.Sprintf("%d %s %s %s", maxe, c15Frac(bestId, 2*c15MaxLen(q, refs)+2), c15IdxOf(bestmatch), c15Ints(idxs))
+		// determinism: a second call on the same input (fresh scratch buffer, same counts) gives the same answer —
+		// the unstable sort.Sort has no random state
+		var m2 int
+		var id2 float64
+		var bm2 string
+		var ix2 []int
+		if op == "fc1" {
+			_, m2, id2, bm2, ix2 = obitag.FindClosests(qs, rs, counts, false)
+		} else {
+			_, m2, id2, bm2, ix2 = obitag2.FindClosests(qs, rs, counts, false)
+		}
+		if r2 := fmt.Sprintf("%d %s %s %s", m2, c15Frac(id2, 2*c15MaxLen(q, refs)+2), c15IdxOf(bm2), c15Ints(ix2)); r2 != r1 {
+			x.addf(op+".not-deterministic", "two calls on the same input: %s then %s", r1, r2)
+		}
+		return r1
 	})
 	if len(refs) == 0 {
 		stat("fc:empty-db")
@@ -807,6 +832,36 @@ func c15ExecFC(x *c15Ctx, op, base string, q []byte, refs [][]byte) (string, []F
 		x.addf(op+".distance."+class, "minimal distance %d, returned %d", wantD, gotMaxe)
 	} else if c15Ints(sorted) != c15Ints(wantSet) {
 		x.addf(op+".ties."+class, "references at minimal distance %d: %s, returned %s", wantD, c15Short(wantSet), c15Short(sorted))
+	}
+	// bestId / bestmatch (theorem bestmatch_verbatim): among the brute-force best references, bestId is the largest
+	// identity lcs/alilength and bestmatch the FIRST one, in the scan order of the code, that reaches it
+	if !x.iupac && len(q) > 0 && gotMaxe == wantD && c15Ints(sorted) == c15Ints(wantSet) {
+		inBest := map[int]bool{}
+		for _, b := range wantSet {
+			inBest[b] = true
+		}
+		cws := make([]int, len(ps))
+		for i, p := range ps {
+			cws[i] = p.cw
+		}
+		wantBM, wantId, nMax := -1, 0.0, 0
+		for _, i := range c15Order(cws) {
+			if !inBest[i] {
+				continue
+			}
+			id := float64(ps[i].lcs) / float64(ps[i].ali)
+			if wantBM < 0 || id > wantId {
+				wantBM, wantId, nMax = i, id, 1
+			} else if id == wantId {
+				nMax++
+			}
+		}
+		if gotBM != strconv.Itoa(wantBM) || gotBestId != wantId {
+			x.addf(op+".bestmatch", "first best reference of largest identity in scan order: %d (identity %v), reported bestmatch %s bestId %v", wantBM, wantId, gotBM, gotBestId)
+		}
+		if nMax > 1 {
+			stat("fc:bestmatch-decided-by-scan-order")
+		}
 	}
 	if len(wantSet) > 1 {
 		stat("fc:ties")
@@ -1010,6 +1065,33 @@ func c15ExecID(x *c15Ctx, op, base string, q []byte, refs [][]byte, taxids []int
 	for _, b := range wantSet {
 		if !c15IsAnc(par, assigned, taxids[b]) {
 			x.addf(op+".assigned-not-ancestor", "assigned taxon %d is not an ancestor-or-self of taxon %d of best reference %d", assigned, taxids[b], b)
+		}
+	}
+	// exactness (theorem assigned_taxon_is_exact_lca): with an identity of the best match >= 0.5 and the minimal
+	// distance m below the length of every best reference, the assigned taxon IS the LCA of the taxa of all the
+	// references within m of some best reference (an assignment that is merely "high enough" - the root - fails here)
+	if wantD, _ := c15Brute(ps); !x.iupac && len(q) > 0 {
+		ok := true
+		bestIdent := 0.0
+		var tx []int
+		for _, b := range wantSet {
+			if wantD >= len(refs[b]) {
+				ok = false
+			}
+			bestIdent = math.Max(bestIdent, float64(ps[b].lcs)/float64(ps[b].ali))
+			for j := range refs {
+				if rows[b][j].dist() <= wantD {
+					tx = append(tx, taxids[j])
+				}
+			}
+		}
+		if ok && bestIdent >= 0.5 {
+			stat(op + ":exact-lca-checked")
+			if want := c15LcaSet(par, tx); want != assigned {
+				x.addf(op+".assigned-not-lca", "LCA of the taxa of the references within %d of a best reference: %d, assigned %d", wantD, want, assigned)
+			}
+		} else if ok && assigned != 1 {
+			x.addf(op+".assigned-not-root", "identity of the best match %v < 0.5 but taxon %d assigned", bestIdent, assigned)
 		}
 	}
 	if assigned != 1 {
@@ -1784,6 +1866,14 @@ func (c15) Gen(rng *rand.Rand, tier string, emit func(string)) {
 		emit("id3 " + c15Hex("acgtacgtag") + " " + R + " 4,5,7,5 " + T + " 0010 1,2,3,4")
 		emit("id3 " + c15Hex("acgtacgtag") + " " + R + " 4,5,2,1 1:1,2:1,4:2,5:2 1111 1,1,1,1") // no family in the taxonomy
 		emit("id3 " + c15Hex("acgtacgtag") + " " + R + " 9,9,6,3 1:1,3:1,6:3,9:6 1111 1,1,1,1") // two families on one lineage
+		// the same with the model running everything verbatim (identify2V)
+		for _, q := range []string{"acgtacgtac", "acgtacgtaa", "acgtacgtag", "ttgcattgcc", "gggggggggg", "ttgcattgca"} {
+			emit("iv3 " + c15Hex(q) + " " + R + " 4,5,7,5 " + T + " 1010 1,2,3,4")
+		}
+		emit("iv3 " + c15Hex("acgtacgtag") + " " + R + " 4,5,7,5 " + T + " 0000 1,2,3,4")
+		emit("iv3 " + c15Hex("acgtacgtag") + " " + R + " 4,5,7,5 " + T + " 0100 1,2,3,4")
+		emit("iv3 " + c15Hex("acgtacgtag") + " " + R + " 4,5,2,1 1:1,2:1,4:2,5:2 1111 1,1,1,1")
+		emit("iv3 " + c15Hex("acgtacgtag") + " " + R + " 9,9,6,3 1:1,3:1,6:3,9:6 1111 1,1,1,1")
 	}
 	// identical references with different taxa; queries shorter than 4 bases; ambiguity codes
 	for _, c := range []string{
@@ -1916,7 +2006,11 @@ func (c15) Gen(rng *rand.Rand, tier string, emit func(string)) {
 					}
 					cn[i] = 1 + g.rng.Intn(9)
 				}
-				emit(fmt.Sprintf("id3 %s %s %s %s %s %s", hx(q), c15List(refs), c15Ints(tx), c15Taxo(t), heads, c15Ints(cn)))
+				op3 := "id3"
+				if g.rng.Intn(3) == 0 { // the model runs everything verbatim (identify2V)
+					op3 = "iv3"
+				}
+				emit(fmt.Sprintf("%s %s %s %s %s %s %s", op3, hx(q), c15List(refs), c15Ints(tx), c15Taxo(t), heads, c15Ints(cn)))
 				continue
 			}
 		}
